@@ -1,6 +1,7 @@
 import OrsoVerif.Model.PyVal
 import OrsoVerif.Model.Arrow
 import OrsoVerif.Model.ArrowFrame
+import OrsoVerif.Model.ArrowShare
 /-! Driver glue for C11: decode tables / columns / Arrow types, run the model, encode. -/
 namespace Drv.C11
 open Arrow
@@ -113,8 +114,101 @@ def forthOne : PyVal → Option PyVal
       | none => .list [.str "err", .str "ValueError"]])
   | _ => none
 
+def decField : PyVal → Option ArrowField
+  | .list [.str name, ty, .bool nullable] => (decTy 8 ty).map (fun t => { name := name, type := t, nullable := nullable })
+  | _ => none
+
+def decSite : String → Option Share.Site
+  | "from_arrow" => some .fromArrow
+  | "helper" => some .helper
+  | "field" => some .field
+  | _ => none
+
+/-- a step of a `share` session -/
+def decShareStep : PyVal → Option (Share.Step (List ArrowField) (Option (List Col)))
+  | .list [.str "conv", .str site, .list fields] => do
+    let s ← decSite site
+    let fs ← fields.mapM decField
+    pure (.conv s fs)
+  | .list [.str "edit", .int r, .str what, .int j, value] =>
+    if r < 0 ∨ j < 0 then none else
+    let e : Option Share.Edit := match what, value with
+      | "rename", .str n => some (.rename j.toNat n)
+      | "nullable", .bool b => some (.nullable j.toNat b)
+      | "type", .str t => (OrsoTy.ofName t).map (.type j.toNat)
+      | "pop", _ => some (.pop j.toNat)
+      | "append", .str n => some (.append { name := n, type := .VARCHAR, elem := none, precision := none, scale := none, nullable := true })
+      | _, _ => none
+    e.map (fun e => .edit r.toNat e.apply)
+  | _ => none
+
+def decColSpec : PyVal → Option Col
+  | .list [.str name, .str ty, el, p, s, .bool nullable] => do
+    let t ← OrsoTy.ofName ty
+    let e ← decOptTy el
+    let p ← optNat p
+    let s ← optNat s
+    let ps := normalise t p s   -- FlatColumn.__init__
+    pure { name := name, type := t, elem := e, precision := ps.1, scale := ps.2, nullable := nullable }
+  | _ => none
+
+def decToSite : String → Option Share.To.Site
+  | "fields" => some .fields
+  | "helper" => some .helper
+  | "identities" => some .helper
+  | "frame" => some .frame
+  | _ => none
+
+/-- a step of a `share` session towards Arrow -/
+def decToStep : PyVal → Option Share.To.Step
+  | .list [.str "conv", .str via, .int k] => if k < 0 then none else (decToSite via).map (fun s => .conv s k.toNat)
+  | .list [.str "edit", .int k, .str what, .int j, value] =>
+    if k < 0 ∨ j < 0 then none else
+    let e : Option Share.Edit := match what, value with
+      | "rename", .str n => some (.rename j.toNat n)
+      | "nullable", .bool b => some (.nullable j.toNat b)
+      | "type", .str t => (OrsoTy.ofName t).map (.type j.toNat)
+      | "precision", v => (optNat v).map (.precision j.toNat)
+      | "scale", v => (optNat v).map (.scale j.toNat)
+      | "elem", v => (decOptTy v).map (.elem j.toNat)
+      | "pop", _ => some (.pop j.toNat)
+      | "append", .str n => some (.append { name := n, type := .VARCHAR, elem := none, precision := none, scale := none, nullable := true })
+      | _, _ => none
+    e.map (fun e => .edit k.toNat e.onCols)
+  | _ => none
+
+/-- what a conversion towards Arrow wrote, in the shape of `forths`: [field, the column it reads back as] per column -/
+def encToOut : Option Share.To.Out → PyVal
+  | some (.fields fs) => .list (fs.map (fun f => .list [encField f, match fromArrowField false f with
+      | some c' => encCol c'
+      | none => .list [.str "err", .str "ValueError"]]))
+  | some (.names ns) => .list (ns.map (fun n => .list [.list [.str n, .list [.str "invalid"], .bool true], .none]))
+  | none => .none
+
+def encCols : Option (List Col) → PyVal
+  | some cs => .list (cs.map encCol)
+  | none => .list [.str "err", .str "ValueError"]
+
 def handle (op : String) (args : List PyVal) : Option (List PyVal) :=
   match op, args with
+  | "share", [.list steps] => do
+    let ss ← steps.mapM decShareStep
+    let st := Share.runGen ss
+    pure [.list (st.seen.map encCols), .list (st.reads.map (fun v => match v with
+      | some cs => encCols cs
+      | none => .none))]
+  | "shareto", [.list schemas, .list steps] => do
+    let objs ← schemas.mapM (fun v => do
+      let cols ← asList v
+      cols.mapM decColSpec)
+    let ss ← steps.mapM decToStep
+    pure [.list ((Share.To.run Share.To.memoisedGen objs ss).map encToOut)]
+  | "forthss", [.list schemas] => do
+    let rs ← schemas.mapM (fun v => do
+      let cols ← asList v
+      let xs ← cols.mapM forthOne
+      pure (PyVal.list xs))
+    pure [.list rs]
   | "forths", [.list cols] => do
     let rs ← cols.mapM forthOne
     pure [.list rs]
